@@ -115,16 +115,12 @@ def dependency_checks(run, n_programs):
 
 
 def check(run):
-    for c in (pyblock.ModelInit("set"), pyblock.ModelInit("list")):
-        rep = run.verify(c, pyblock.model_init_callees())
-        triage_generic(run, rep, native_fn, "Model.__init__")
-    for c in (pyblock.Compile(True), pyblock.Compile(False), pyblock.Execute(True), pyblock.Execute(False)):
-        rep = run.verify(c, {})
-        triage_generic(run, rep, native_fn, c.key.split(".")[-1])
     cs = pyekf.filter_callees()
-    for c in (pyekf.ModelModel(False), pyekf.ModelModel(True)):
-        rep = run.verify(c, cs)
-        triage_generic(run, rep, native_fn, "Model.model")
+    items = [(pyblock.ModelInit("set"), pyblock.model_init_callees()), (pyblock.ModelInit("list"), pyblock.model_init_callees())]
+    items += [(c, {}) for c in (pyblock.Compile(True), pyblock.Compile(False), pyblock.Execute(True), pyblock.Execute(False))]
+    items += [(pyekf.ModelModel(False), cs), (pyekf.ModelModel(True), cs)]
+    for (c, _), rep in zip(items, run.verify_many(items)):
+        triage_generic(run, rep, native_fn, c.key.split(".")[-1])
     dependency_checks(run, 12 if run.tier == "quick" else 60)
     # the dependency obligations are bounded over programs: keep them out of the proof count when undecided
     shapes = [(3, 2, 2), (2, 0, 1), (4, 1, 0), (1, 3, 3)] if run.tier == "thorough" else [(3, 2, 2)]
